@@ -93,6 +93,14 @@ func buildFaults(m *gen.Model, base *gen.Rendered, r *xrand.Rand) []fault {
 					break
 				}
 			}
+			// the same URL path again as a JSON-RPC resource (placed anywhere)
+			{
+				cp := &gen.Block{Kind: "rpcurl", Path: b.Path, RPC: []*gen.RPCMethod{{Name: "dupRpcOnHttpPath", Params: &gen.SNode{Kind: "object"}}}}
+				fm := cloneModel(m)
+				pos := r.Intn(len(fm.Blocks) + 1)
+				fm.Blocks = append(fm.Blocks[:pos:pos], append([]*gen.Block{cp}, fm.Blocks[pos:]...)...)
+				out = append(out, fault{kind: "duplicate-url-path-other-protocol", host: "URL", model: fm, labels: []string{"url:" + b.Path}, focus: []string{"url:" + b.Path}})
+			}
 			// the same method on the same path twice
 			if len(b.Methods) > 0 {
 				me := b.Methods[0]
@@ -111,6 +119,15 @@ func buildFaults(m *gen.Model, base *gen.Rendered, r *xrand.Rand) []fault {
 				fm := cloneModel(m)
 				fm.Blocks = append(fm.Blocks, &gen.Block{Kind: "method", Method: &gen.Method{Verb: "GET", Path: np, OwnPath: true}})
 				out = append(out, fault{kind: "similar-path", host: "GET", model: fm, labels: []string{"method:GET " + np, "url:" + b.Path}, focus: []string{"method:GET " + np}})
+			}
+		case "rpcurl":
+			// the same URL path again as an HTTP resource (placed anywhere)
+			{
+				cp := &gen.Block{Kind: "url", Path: b.Path, Methods: []*gen.Method{{Verb: "GET", Path: b.Path}}}
+				fm := cloneModel(m)
+				pos := r.Intn(len(fm.Blocks) + 1)
+				fm.Blocks = append(fm.Blocks[:pos:pos], append([]*gen.Block{cp}, fm.Blocks[pos:]...)...)
+				out = append(out, fault{kind: "duplicate-url-path-other-protocol", host: "URL", model: fm, labels: []string{"url:" + b.Path}, focus: []string{"url:" + b.Path}})
 			}
 		case "method":
 			me := b.Method
@@ -199,6 +216,13 @@ func buildFaults(m *gen.Model, base *gen.Rendered, r *xrand.Rand) []fault {
 		{"similar-paths-root-parameter", "GET /{rootParamA}\n  200 any\nGET /{rootParamB}\n  200 any\n"},
 		{"similar-paths-root-parameter-url", "URL /{rootUrlA}/things\n  GET\n    200 any\nURL /{rootUrlB}/things\n  POST\n    Request any\n    200 any\n"},
 		{"similar-paths-root-parameter-deeper", "GET /{tenantA}/zzcats/{id}\n  200 any\nPOST /{tenantB}/zzcats/{id}\n  Request any\n  200 any\n"},
+		{"duplicate-url-path-rpc-then-http", "URL /zzmixed/one\n  Protocol json-rpc-2.0\n  Method ping\n    Params\n      {}\n    Result\n      {}\nURL /zzmixed/one\n  GET\n    200 any\n"},
+		{"duplicate-url-path-http-then-rpc", "URL /zzmixed/two\n  GET\n    200 any\nURL /zzmixed/two\n  Protocol json-rpc-2.0\n  Method ping\n    Params\n      {}\n"},
+		{"duplicate-url-path-rpc-then-bare", "URL /zzmixed/three\n  Protocol json-rpc-2.0\n  Method ping\n    Params\n      {}\nURL /zzmixed/three\n"},
+		{"duplicate-url-path-bare-then-rpc", "URL /zzmixed/four\nURL /zzmixed/four\n  Protocol json-rpc-2.0\n  Method ping\n    Params\n      {}\n"},
+		{"duplicate-url-path-bare-then-bare", "URL /zzmixed/five\nTYPE @zzbetween any\nURL /zzmixed/five\n"},
+		{"duplicate-url-path-rpc-then-rpc", "URL /zzmixed/six\n  Protocol json-rpc-2.0\n  Method ping\n    Params\n      {}\nURL /zzmixed/six\n  Protocol json-rpc-2.0\n  Method pong\n    Params\n      {}\n"},
+		{"duplicate-url-path-rpc-then-pasted-http", "MACRO @zzmixedM\n(\n  URL /zzmixed/seven\n    GET\n      200 any\n)\nURL /zzmixed/seven\n  Protocol json-rpc-2.0\n  Method ping\n    Params\n      {}\nPASTE @zzmixedM\n"},
 		{"type-without-name-regex", "TYPE regex\n/ab+/\n"},
 		{"type-without-name-any", "TYPE any\n"},
 		{"type-without-name-empty", "TYPE empty\n"},
@@ -220,7 +244,14 @@ func buildFaults(m *gen.Model, base *gen.Rendered, r *xrand.Rand) []fault {
 			if strings.Contains(text, "\nINFO\n") {
 				continue
 			}
-			sn[1] = "INFO\n  Title \"\"\n  Title \"second\"\n"
+			v := [][2]string{
+				{"second-Title-after-empty-Title", "INFO\n  Title \"\"\n  Title \"second\"\n"},
+				{"second-Version-after-blank-Version", "INFO\n  Title \"API\"\n  Version \" \"\n  Version \"1.0\"\n"},
+				{"second-Version-after-tab-Version", "INFO\n  Version \"\t\"\n  Title \"API\"\n  Version 2\n"},
+				{"second-Title-after-blank-Title", "INFO\n  Title \"  \"\n  Version 1\n  Title \"second\"\n"},
+				{"second-Version-after-blank-Version-pasted", "MACRO @secondVersionM\n(\n  Version \"1.0\"\n)\nINFO\n  Title \"API\"\n  Version \" \"\n  PASTE @secondVersionM\n"},
+			}[r.Intn(5)]
+			sn = v
 		}
 		out = append(out, fault{kind: sn[0], host: "snippet", text: text + sn[1], spans: [][2]int{{len(text), len(text) + len(sn[1])}}})
 	}
